@@ -107,6 +107,8 @@ def cases(tier, seed):
             yield {'kind': 'one', 'cfg': c}
         for c in g4.random_cases(tier, seed, N_RANDOM[tier]):
             yield {'kind': 'one', 'cfg': c}
+    for text, formulas in MASS_TABLE_HAND:
+        yield {'kind': 'mass-table', 'text': text, 'formulas': formulas}
     for i, c in enumerate(singles()):
         if i % CHUNK == 0 and i and batches:
             yield batches.pop(0)
@@ -310,7 +312,45 @@ def check_xproc(cfgs):
     return Outcome(key, nontrivial, fails[:10])
 
 
+# derived masses of fragments whose hydrogen count needs more than a valence table (aromatic N-H, charged centres, ring
+# hetero atoms): (fragment block, {name: sum formula}); the formulas are written by hand from the structures
+MASS_TABLE_HAND = [
+    ('{#PYR=[>]CC[<]c1ccc[nH]1}', {'PYR': {'C': 6, 'H': 9, 'N': 1}}),                       # 2-ethylpyrrole
+    ('{#TRP=[>]NC(Cc1c[nH]c2ccccc12)C(=O)[<]}', {'TRP': {'C': 11, 'H': 12, 'N': 2, 'O': 1}}),
+    ('{#HIS=[$]Cc1c[nH]cn1,#PY=[$]Cc1ccccn1}', {'HIS': {'C': 4, 'H': 6, 'N': 2}, 'PY': {'C': 6, 'H': 7, 'N': 1}}),
+    ('{#THI=[$]CC1=CC=C([$])S1}', {'THI': {'C': 5, 'H': 6, 'S': 1}}),          # thiophene, written with localised bonds
+    ('{#QA=[$]C[N+](C)(C)C,#AC=[$]CC(=O)[O-]}', {'QA': {'C': 4, 'H': 12, 'N': 1}, 'AC': {'C': 2, 'H': 3, 'O': 2}}),
+    ('{#PS=[>]CC[<]c1ccccc1,#IND=[$]c1ccc2[nH]ccc2c1}', {'PS': {'C': 8, 'H': 10}, 'IND': {'C': 8, 'H': 7, 'N': 1}}),
+    ('{#XH=[$]C([H])([H])N}', {'XH': {'C': 1, 'H': 5, 'N': 1}}),                              # written-out hydrogens count once
+]
+
+
+def check_mass_table(case):
+    from cgsmiles.sample import MoleculeSampler
+    text, formulas = case['text'], case['formulas']
+    key = 'mass-table %s' % text
+    descs = sorted({d for d in ('$', '>', '<') if '[' + d + ']' in text})
+    try:
+        sampler = MoleculeSampler.from_fragment_string(text, polymer_reactivities={d: 1.0 / len(descs) for d in descs}, all_atom=True, seed=1)
+    except Exception as e:    # noqa
+        return Outcome(key, True, [Failure('MoleculeSampler.from_fragment_string', 'exception', '%s: %s: %s' % (text, type(e).__name__, str(e)[:200]),
+                                           'sample/all-atom/exception/%s' % type(e).__name__)])
+    fails = []
+    smass = getattr(sampler, 'fragment_masses', None)
+    for name, formula in formulas.items():
+        want = sum(sp.ATOMIC_MASS[el] * n for el, n in formula.items())
+        natoms = sum(formula.values())
+        got = smass.get(name) if isinstance(smass, dict) else None
+        if not isinstance(got, (int, float)) or abs(got - want) > sp.MASS_TOL_PER_ATOM * natoms:
+            fails.append(Failure('MoleculeSampler.__init__ -> fragment_masses', 'derived-mass',
+                                 '%s: fragment %s: sampler mass %r, sum formula %r weighs %.3f' % (text, name, got, formula, want),
+                                 'sample/all-atom/derived-mass'))
+    return Outcome(key, True, fails)
+
+
 def check_case(case):
     if case.get('kind') == 'xproc':
         return check_xproc(case['cfgs'])
+    if case.get('kind') == 'mass-table':
+        return check_mass_table(case)
     return check_one(case['cfg'])
